@@ -47,7 +47,7 @@ func childReplay(h *recHistory, tag string) ([]blockResult, error) {
 	cmd := exec.Command(bin, "-test.run", "^TestC06Child$", "-test.count=1")
 	// the fresh process lives in another host environment: time zone with daylight saving, locale, core count, home
 	cmd.Env = append(os.Environ(), "VERIF_C06_HISTORY="+in, "VERIF_C06_OUT="+out, "VERIF_RESULT=",
-		"TZ=America/New_York", "LANG=tr_TR.UTF-8", "LC_ALL=tr_TR.UTF-8", "GOMAXPROCS=3", "HOME=/nonexistent")
+		"TZ=America/New_York", "LANG=tr_TR.UTF-8", "LC_ALL=tr_TR.UTF-8", "GOMAXPROCS="+[]string{"1", "3"}[len(h.Blocks)%2], "HOME=/nonexistent")
 	if o, err := cmd.CombinedOutput(); err != nil {
 		return nil, fmt.Errorf("child process failed: %v: %s", err, trunc(string(o), 400))
 	}
@@ -64,7 +64,7 @@ func childReplay(h *recHistory, tag string) ([]blockResult, error) {
 
 func TestC06(t *testing.T) {
 	rec := ev.For("C06")
-	rec.Describe("ABCI-mode differential: a history of 5-25 blocks of signed transactions over all custom modules (several provers proving the same file so that they are credited equal sizes in the same reward block, funded gauges, attestation/report form requests with their height-seeded shuffles, file-tree ACL edits with 2-4 ids, name-service bids, notifications, plus adversarial reflective messages) is generated while executing on a primary app; the recorded signed bytes are then replayed on (i) a second independent app instance in the same process - every case; in every other case that instance also answers gRPC queries of all custom modules against the last committed state and runs the mempool check (CheckTx) on each transaction between the steps of block execution, as an RPC-serving node does, was started with different operator settings (minimum-gas-prices, pruning, inter-block cache, event indexing, telemetry ...) and runs with the process-local time zone set to one with daylight saving or an odd offset (the recorded histories contain files paid once for spans of months, whose gauges use calendar arithmetic), (ii) the same 1.1 s later - a sample; one history in ten is anchored to the wall clock (its first block, where the price feed is stamped, lies a round span - 10 min ... 30 days - minus 3 s in the past) and re-executed 4.2 s later, so that anything measured against the wall clock instead of block time falls on the other side of the span, (iii) a fresh child process of the same binary in another host environment (TZ, locale, GOMAXPROCS, HOME) - every 10th case in quick, every case in thorough. Compared block by block: AppHash, per-tx code/codespace/gas wanted/gas used/data and ordered events, ordered BeginBlock and EndBlock events. Non-trivial = a reward block saw >= 2 distinct listed provers with a live gauge, or an ACL message carried >= 3 ids, or a form was requested; distinct = distinct recorded histories.",
+	rec.Describe("ABCI-mode differential: a history of 5-25 blocks of signed transactions over all custom modules (several provers proving the same file so that they are credited equal sizes in the same reward block, funded gauges, attestation/report form requests with their height-seeded shuffles, file-tree ACL edits with 2-4 ids, name-service bids, notifications, plus adversarial reflective messages) is generated while executing on a primary app; the recorded signed bytes are then replayed on (i) a second independent app instance in the same process - every case; in every other case that instance also answers gRPC queries of all custom modules against the last committed state and runs the mempool check (CheckTx) on each transaction between the steps of block execution, as an RPC-serving node does, was started with different operator settings (minimum-gas-prices, pruning, inter-block cache, event indexing, telemetry ...), is limited to one core (GOMAXPROCS=1; histories contain transactions with two or three signers some of whom sign with a stale sequence number or a signature that does not verify) and runs with the process-local time zone set to one with daylight saving or an odd offset (the recorded histories contain files paid once for spans of months, whose gauges use calendar arithmetic), (ii) the same 1.1 s later - a sample; one history in ten is anchored to the wall clock (its first block, where the price feed is stamped, lies a round span - 10 min ... 30 days - minus 3 s in the past) and re-executed 4.2 s later, so that anything measured against the wall clock instead of block time falls on the other side of the span, (iii) a fresh child process of the same binary in another host environment (TZ, locale, GOMAXPROCS, HOME) - every 10th case in quick, every case in thorough. Compared block by block: AppHash, per-tx code/codespace/gas wanted/gas used/data and ordered events, ordered BeginBlock and EndBlock events. Non-trivial = a reward block saw >= 2 distinct listed provers with a live gauge, or an ACL message carried >= 3 ids, or a form was requested; distinct = distinct recorded histories.",
 		"same binary, same machine: nondeterminism that needs another architecture, Go version or libwasmvm build is out of reach",
 		"Go randomises map iteration per range statement, so a map-order dependence shows with probability >= 1/2 per affected block in (i)")
 	if os_only_regress() {
@@ -91,7 +91,7 @@ func TestC06(t *testing.T) {
 				quietRun, c4 := replayHistory(b.rec)
 				c4.Close()
 				if compareRuns(b.results, quietRun) == "" {
-					failf(rt, rec, "C06/queries-change-results", b.trace, "an instance that differs only in node-local conditions (it answers queries and mempool checks between the steps of block execution, lives in another time zone and was configured with other operator settings such as minimum-gas-prices, pruning, caches) disagrees with a plain one: %s", d)
+					failf(rt, rec, "C06/queries-change-results", b.trace, "an instance that differs only in node-local conditions (it answers queries and mempool checks between the steps of block execution, lives in another time zone, on a single core, and was configured with other operator settings such as minimum-gas-prices, pruning, caches) disagrees with a plain one: %s", d)
 				}
 			}
 			failf(rt, rec, "C06/same-process", b.trace, "two app instances in one process disagree: %s", d)
@@ -129,6 +129,9 @@ func TestC06(t *testing.T) {
 		nt := b.multiProverReward || b.aclWithManyIDs || b.formRequested
 		if b.multiProverReward {
 			rec.Count("reward-block-with->=2-provers")
+		}
+		if b.multiSigner {
+			rec.Count("history-with-multi-signer-tx")
 		}
 		rec.Case(nt, ev.Hash(string(b.rec.json())), func() interface{} { return b.trace })
 	})
